@@ -13,6 +13,9 @@ DECODERS = ["fcp.serde:_decode_builtin_unsigned", "fcp.serde:_decode_builtin_sig
             "fcp.serde:_decode_array", "fcp.serde:_decode_dynamic_array", "fcp.serde:_decode_optional", "fcp.serde:_decode"]
 BIT_LEMMAS = ["lemmas:word_bits_len", "lemmas:wire_chars_len", "lemmas:max_is_enum_max", "fcp.specs.enum:Enum.max"]
 DECODERS_PROVED = DECODERS + ["fcp.serde:_Buffer.push_bytes", "fcp.serde:decode"]
+RT_LEMMAS = ["lemmas:mod_step", "lemmas:mod_range", "lemmas:val_of_word_bits", "lemmas:chars_split", "lemmas:elems_split",
+             "lemmas:fields_split", "lemmas:rt_str", "lemmas:rt_elems", "lemmas:rt_struct", "lemmas:seq_assoc", "lemmas:wire_dyn_shape",
+             "lemmas:rt_dyn_count", "lemmas:rt_dyn", "lemmas:rt"]
 REFLECTION = ["fcp.specs.type:NumericType.reflection", "fcp.specs.type:StringType.reflection", "fcp.specs.type:EnumType.reflection",
               "fcp.specs.type:StructType.reflection", "fcp.specs.type:ArrayType.reflection", "fcp.specs.type:DynamicArrayType.reflection",
               "fcp.specs.type:OptionalType.reflection", "fcp.specs.metadata:MetaData.reflection",
@@ -43,7 +46,7 @@ ENCODING = ["fcp.encoding:PackedEncoder._get_type_length", "fcp.encoding:PackedE
             "fcp.specs.type:NumericType.get_length", "fcp.specs.enum:Enum.max", "lemmas:max_is_enum_max"]
 
 # per-function solver budgets (ms) above the tier default: sized so that the verdict does not flip on a loaded machine
-SLOW = {"fcp.serde:_decode": 60000, "fcp.serde:_decode_struct": 60000, "fcp.serde:_decode_str": 30000, "fcp.serde:decode": 30000, "fcp.serde:_encode": 30000,
+SLOW = {"fcp.serde:_decode": 60000, "lemmas:rt": 60000, "theorems:C01_roundtrip": 60000, "lemmas:rt_str": 30000, "fcp.serde:_decode_struct": 60000, "fcp.serde:_decode_str": 30000, "fcp.serde:decode": 30000, "fcp.serde:_encode": 30000,
         "fcp.serde:_decode_dynamic_array": 30000, "fcp.serde:_encode_struct": 30000}
 
 PLANS = {
@@ -199,8 +202,24 @@ PLANS = {
                        "presence flag of optionals must lie inside the input (must_raise_if clauses); the cursor never moves backwards; the "
                        "string loop consumes 8 bits of real input per completed iteration, so its work is bounded by the input length",
     },
+    "C01": {
+        "targets": BUFFER + LOOKUPS + ENCODERS + BIT_LEMMAS + DECODERS_PROVED + RT_LEMMAS + ["theorems:C01_roundtrip"],
+        "native": "codec",
+        "trusted": CODEC_TRUSTED + [
+            "assumed lemma rep_unpack: the 8*len bits of the canonical packing of s are s followed by zero padding (uniqueness of binary "
+            "expansion); assumed lemma unpack_rep: a byte string is the canonical packing of its own bits",
+            "termination of the structural induction in the RT lemmas and of the codec's recursion over types (struct references point to "
+            "earlier declarations: C08)",
+            "known finding KF-F1: the contract of _decode_builtin_signed is violated exactly at the signed minimum; the theorem is relative to it",
+        ],
+        "explanation": "theorem C01_roundtrip is a ghost client of the real encode() and decode(): for every well-formed schema and conforming "
+                       "value, encode's contract gives the canonical packing of wire(v); lemma RT (structural induction over the type, proved "
+                       "from the spec functions only) shows that wire(v) followed by the padding `starts` with v; decode's contract then "
+                       "returns v. Every encoder/decoder between the theorem and the bit layer carries a contract strong enough to transport "
+                       "it (modular: callers see contracts, not bodies)",
+    },
     "C02": {
-        "targets": BUFFER + LOOKUPS + ENCODERS + BIT_LEMMAS + DECODERS_PROVED,
+        "targets": BUFFER + LOOKUPS + ENCODERS + BIT_LEMMAS + DECODERS_PROVED + RT_LEMMAS,
         "native": "codec",
         "trusted": CODEC_TRUSTED,
         "explanation": "encode direction of the canonical wire format: every encoder is proved to append exactly wire(fcp,T,v) (spec/wire.py, "
